@@ -96,6 +96,12 @@ def is_congruent(tab):
     return all(all(g[i] <= g[i + 1] for i in range(len(g) - 1)) for _, g in tab.values())
 
 
+def congruent_chromosomes(tab):
+    """{chromosome: genetic positions never decrease along ascending physical position}.  Equal consecutive positions
+    (complete linkage) do not decrease: such a chromosome is congruent."""
+    return {c: all(g[i] <= g[i + 1] for i in range(len(g) - 1)) for c, (_, g) in tab.items()}
+
+
 def ref_interp(tab, qc, qp):
     """Expected interpolated position per query and its kind:
     'absent' (chromosome not in the map -> NaN), 'own' (a marker of the map -> stored position), 'inside' (strictly
